@@ -24,6 +24,10 @@ let int_of_n = function N0 -> 0 | Npos p -> int_of_pos p
 let byte_tab = Array.init 256 n_of_int
 let rec nat_of_int n = if n = 0 then Datatypes.O else Datatypes.S (nat_of_int (n - 1))
 let sn n = string_of_int (int_of_n n)
+(* exact decimal for values up to 2^64 - 1 (digests) *)
+let rec i64_of_pos = function
+  | Coq_xH -> 1L | Coq_xO p -> Int64.shift_left (i64_of_pos p) 1 | Coq_xI p -> Int64.logor (Int64.shift_left (i64_of_pos p) 1) 1L
+let n_to_string = function N0 -> "0" | Npos p -> Printf.sprintf "%Lu" (i64_of_pos p)
 
 (* ---------- hex ---------- *)
 let hexval c = match c with
@@ -656,6 +660,11 @@ let run_case (prof : profile) (line : string) : string =
                | ROk (c, r) -> ("ok v3 " ^ show3 (M3.Connect c), used r)
                | RErr e -> ("err " ^ serr e, "?") | RPanic _ -> ("PANIC", "?")))) in
     Printf.sprintf "%s;resume=%s;rused=%s" first (fst resume) (snd resume)
+  | "digest" ->
+    let fam = next t in
+    let d = hex t in
+    let l = (match fam with "v3" -> Digest.digest3 prof d | "v5" -> Digest.digest5 prof d | s -> bad ("fam: " ^ s)) in
+    String.concat "," (L.map n_to_string l)
   | _ ->
     (match next t with
      | "v3" -> fam_ops (fam3 prof) prof op t
